@@ -99,18 +99,72 @@ def run(ctx):
 
     # ------------------------------------------------------------------ R14.1
     ctx.rule("R14.1", "for each JSON form that the field type's constructor does not accept as-is, unpack_obj inverts it for the scalar and the list form of the type")
-    dec = {}  # field type text -> (kind, node)   kind in scalar/list
-    for st in ast.walk(unpack_obj):
-        if isinstance(st, ast.If):
-            for cmpn in [n for n in ast.walk(st.test) if isinstance(n, ast.Compare) and len(n.ops) == 1 and isinstance(n.ops[0], ast.Eq)]:
-                try:
-                    v = prog.fold(jm, cmpn.comparators[0])
-                except NotConst:
-                    continue
-                if isinstance(v, str) and isinstance(cmpn.left, ast.Name) and "type" in cmpn.left.id:
-                    body_calls = [norm(c.func) for s0 in st.body for c in ast.walk(s0) if isinstance(c, ast.Call)]
-                    elementwise = any(isinstance(n, (ast.ListComp, ast.GeneratorExp, ast.For)) or (isinstance(n, ast.Call) and call_name(n) == "map") for s0 in st.body for n in ast.walk(s0))
-                    dec[v] = dict(calls=body_calls, elementwise=elementwise, node=st)
+    from ..core import expand_aliases, single_assign_aliases
+    from ..logic import atoms as _atoms, formula as _formula, reachable_assuming
+
+    ucfg = CFG(unpack_obj)
+    ual = single_assign_aliases(unpack_obj)
+    # the per-field loop of the decoder: for <type_var>, <name_var> in <descriptor>.get_field_tuples()
+    dloop = next((n for n in ast.walk(unpack_obj) if isinstance(n, ast.For) and "get_field_tuples" in norm(n.iter) and isinstance(n.target, ast.Tuple)
+                  and len(n.target.elts) == 2), None)
+
+    def decoder_inverse(ft: str):
+        """How does the decoder treat a NON-None value of a field of type `ft`?  Returns 'scalar', 'elementwise' or None."""
+        if dloop is None:
+            return None
+        tvar = norm(dloop.target.elts[0])
+
+        def valuation(atom):
+            try:
+                e = ast.parse(atom, mode="eval").body
+            except SyntaxError:
+                return None
+            if isinstance(e, ast.Compare) and len(e.ops) == 1:
+                l, r = e.left, e.comparators[0]
+                if isinstance(e.ops[0], ast.Eq):
+                    for a, b in ((l, r), (r, l)):
+                        if norm(a) == tvar:
+                            try:
+                                return prog.fold(jm, b) == ft
+                            except NotConst:
+                                return None
+                if isinstance(e.ops[0], ast.In) and norm(l) == tvar:
+                    try:
+                        return ft in prog.fold(jm, r)
+                    except (NotConst, TypeError):
+                        return None
+                if isinstance(e.ops[0], ast.Is) and isinstance(r, ast.Constant) and r.value is None:
+                    return False  # a set (non-None) value
+            return None
+
+        first = ucfg.node_of(dloop.body[0])
+        reach = reachable_assuming(ucfg, first.id, valuation)
+        kinds = set()
+        for nd in ucfg.stmt_nodes():
+            if nd.id not in reach or not isinstance(nd.ast, ast.Assign):
+                continue
+            t = nd.ast.targets[0]
+            if not (isinstance(t, ast.Subscript) and not isinstance(t.slice, ast.Constant)):
+                continue
+            v = nd.ast.value
+            # value built elsewhere (list accumulated in a loop)?
+            srcs = [v]
+            if isinstance(v, ast.Name):
+                srcs = [a.value for a in ast.walk(dloop) if isinstance(a, ast.Assign) and norm(a.targets[0]) == v.id] + \
+                       [c.args[0] for c in ast.walk(dloop) if isinstance(c, ast.Call) and isinstance(c.func, ast.Attribute) and c.func.attr in ("append", "extend")
+                        and norm(c.func.value) == v.id and c.args]
+            for src in srcs:
+                for c in ast.walk(src):
+                    if isinstance(c, ast.Call) and "b64decode" in norm(c.func) and c.args:
+                        arg = expand_aliases(c.args[0], ual)
+                        whole = isinstance(arg, ast.Subscript) and norm(arg) == norm(t)
+                        kinds.add("scalar" if whole else "elementwise")
+        if "scalar" in kinds and "elementwise" not in kinds:
+            return "scalar"
+        if "elementwise" in kinds and "scalar" not in kinds:
+            return "elementwise"
+        return "+".join(sorted(kinds)) or None
+
     for c, form, node in enc:
         short = c.replace("flow.record.fieldtypes.", "").replace("flow.record.base.", "")
         if c in ("flow.record.base.Record", "flow.record.base.RecordDescriptor"):
@@ -123,12 +177,11 @@ def run(ctx):
             if not needs_inverse:
                 ctx.ok("R14.1", construct, "constructor accepts the text form", node)
                 continue
-            for ft, want_list in (("bytes", False), ("bytes[]", True)):
-                d = dec.get(ft)
-                ok = d is not None and any("b64decode" in x for x in d["calls"]) and (d["elementwise"] == want_list or (want_list and d["elementwise"]))
-                ctx.check(ok, "R14.1", f"unpack_obj:inverse:{ft}", f"the encoder base64-encodes every bytes value (also inside {ft}) but the decoder has no "
-                          f"{'element-wise ' if want_list else ''}base64 inverse for fields of type {ft}: reading such a record fails or yields text", unpack_obj,
-                          f"{ft}: base64 inverse present", key=f"R14.1:unpack_obj:no-inverse:{ft}")
+            for ft, want in (("bytes", "scalar"), ("bytes[]", "elementwise")):
+                got = decoder_inverse(ft)
+                ctx.check(got == want, "R14.1", f"unpack_obj:inverse:{ft}", f"the encoder base64-encodes every bytes value (also inside {ft}) but for a set field of type {ft} "
+                          f"the decoder applies {got or 'no'} base64 decoding (needs {want}): reading such a record fails or yields text", unpack_obj,
+                          f"{ft}: {want} base64 inverse", key=f"R14.1:unpack_obj:no-inverse:{ft}")
             continue
         cls = prog.all_classes().get(c)
         if cls is None:
@@ -141,7 +194,7 @@ def run(ctx):
             ctx.ok("R14.1", construct, f"constructor dispatches on {need}", node)
         else:
             # no inverse possible through the constructor: must exist in the decoder, else the type is outside JSON support
-            has_inv = any(short.split(".")[-1] in k for k in dec)
+            has_inv = decoder_inverse(short.split(".")[-1]) is not None
             if has_inv:
                 ctx.ok("R14.1", construct, "decoder inverts it", node)
             else:
@@ -154,17 +207,24 @@ def run(ctx):
     for fn, container in ((unpack_obj, None), (pack_obj, None)):
         cfg = CFG(fn)
         for st in ast.walk(fn):
-            if isinstance(st, ast.Assign) and len(st.targets) == 1 and isinstance(st.targets[0], ast.Subscript) and isinstance(st.value, (ast.Call, ast.ListComp)):
+            if isinstance(st, ast.Assign) and len(st.targets) == 1 and isinstance(st.targets[0], ast.Subscript) and isinstance(st.value, (ast.Call, ast.ListComp, ast.Name)):
                 tgt = st.targets[0]
                 tgt_text = norm(tgt)
-                if not any(norm(n) == tgt_text for n in ast.walk(st.value) if isinstance(n, ast.Subscript)):
-                    continue  # not a conversion of the same slot
+                fal0 = single_assign_aliases(fn)
+                vx = expand_aliases(st.value, fal0)
+                if not any(norm(n) == tgt_text for n in ast.walk(vx) if isinstance(n, ast.Subscript)):
+                    # a list accumulated from the slot's elements also converts the slot
+                    if not (isinstance(st.value, ast.Name) and any(norm(x) == tgt_text or (isinstance(x, ast.Name) and x.id in fal0 and norm(fal0[x.id]) == tgt_text)
+                                                                    for l in ast.walk(fn) if isinstance(l, ast.For) for x in [l.iter])):
+                        continue  # not a conversion of the same slot
                 if isinstance(tgt.slice, ast.Constant):
                     continue
                 n_sites += 1
                 node = cfg.node_of(st)
                 facts = [(t, p) for t, p, _ in cfg.facts_at(node.id)]
-                ok = none_excluded(facts, tgt_text)
+                fal = single_assign_aliases(fn)
+                same = {tgt_text} | {k for k, v in fal.items() if norm(v) == tgt_text}
+                ok = any(none_excluded(facts, x) for x in same)
                 ctx.check(ok, "R14.2", f"{fn.name}:{norm(st)[:60]}", f"`{norm(st)[:80]}` runs for an unset (None) field: " +
                           ("null is decoded with a conversion that raises / invents a value" if fn is unpack_obj else "None is written as a non-null JSON value and reads back as a set field"),
                           st, f"guarded: {tgt_text} is not None / isinstance(...)", key=f"R14.2:{fn.name}:none-unguarded:{norm(st.value)[:40]}")
@@ -214,12 +274,17 @@ def run(ctx):
 
     # ------------------------------------------------------------------ R14.4 boolean normalisation
     ctx.rule("R14.4", "fields declared `boolean` are converted with bool() in the encoder (JSON true/false), driven by the descriptor's field tuples")
-    loops = [n for n in ast.walk(pack_obj) if isinstance(n, ast.For) and "get_field_tuples" in norm(n.iter)]
+    from ..logic import facts_as_premises, implies, parse
+
+    pcfg = CFG(pack_obj)
+    loops = [n for n in ast.walk(pack_obj) if isinstance(n, ast.For) and "get_field_tuples" in norm(n.iter) and isinstance(n.target, ast.Tuple)]
     ok = False
     for l in loops:
-        for st in ast.walk(l):
-            if isinstance(st, ast.If) and any(isinstance(c, ast.Compare) and isinstance(c.comparators[0], ast.Constant) and c.comparators[0].value == "boolean" for c in ast.walk(st.test)):
-                ok = any(isinstance(a, ast.Assign) and isinstance(a.value, ast.Call) and call_name(a.value) == "bool" for a in ast.walk(st))
+        tvar = norm(l.target.elts[0])
+        for a in ast.walk(l):
+            if isinstance(a, ast.Assign) and isinstance(a.value, ast.Call) and call_name(a.value) == "bool" and isinstance(a.targets[0], ast.Subscript):
+                prem = facts_as_premises(pcfg.facts_at(pcfg.node_of(a).id))
+                ok = implies(prem, parse(f"{tvar} == 'boolean'"))
     ctx.check(ok, "R14.4", "pack_obj:boolean", "boolean fields are not normalised to bool", pack_obj, "bool(serial[field]) for boolean fields")
 
     # ------------------------------------------------------------------ R14.5 fallback derives from the current line
